@@ -295,3 +295,106 @@ type schedCase struct {
 	Obs      string   `json:"observed"`
 	Expect   string   `json:"expected,omitempty"`
 }
+
+// ---- generic schedule layer for the input-quantified properties ----
+//
+// The Engine I layers of a property judge the canonical schedule's output against the property's
+// oracle. The schedule layer adds the "--threads / any interleaving" half: on a few inputs of the
+// property's own pipeline (4 records under every execution with <=2 non-default scheduling choices,
+// 70 records — more than any channel buffer — with <=1, plus the starvation family) every explored
+// execution must produce the canonical schedule's observation.
+
+func canonJudge(prefix string) func(sc *Scenario, st *engine.Stats, res *engine.JobResult) {
+	canon := map[string]string{}
+	return func(sc *Scenario, st *engine.Stats, res *engine.JobResult) {
+		want, ok := canon[sc.Name]
+		if !ok {
+			_, want = sc.execFn()(nil)
+			canon[sc.Name] = want
+		}
+		for obs, n := range st.Outcomes {
+			if obs == want {
+				res.Nontrivial += n
+				continue
+			}
+			kind := "output"
+			switch {
+			case strings.HasPrefix(obs, "panic"):
+				kind = "panic"
+			case strings.HasPrefix(obs, "deadlock"):
+				kind = "deadlock"
+			}
+			res.Violate(prefix+":schedule-dependent-"+kind, fmt.Sprintf("scenario %s: %d explored execution(s) give %.300s; the canonical schedule gives %.300s", sc.Name, n, obs, want), schedCase{Scenario: *sc, Trace: st.FirstTrace[obs], Obs: obs, Expect: want})
+		}
+	}
+}
+
+// addSchedLayer wraps a property's Plan/Exec with a schedule layer over scens.
+func addSchedLayer(p *Prop, prefix string, scens func() []Scenario) {
+	var cached []Scenario
+	get := func() []Scenario {
+		if cached == nil {
+			cached = scens()
+		}
+		return cached
+	}
+	judge := canonJudge(prefix)
+	plan, exec := p.Plan, p.Exec
+	p.Plan = func(tier string) ([]string, *engine.JobResult) {
+		sj, pre := planSched(get(), 1, judge)
+		jobs, pre2 := plan(tier)
+		if pre2 != nil {
+			pre.Merge(pre2)
+		}
+		return append(sj, jobs...), pre
+	}
+	p.Exec = func(tier, job string) *engine.JobResult {
+		if strings.HasPrefix(job, "{") {
+			return execSched(get(), job, judge)
+		}
+		if strings.HasPrefix(job, "case:") {
+			var c schedCase
+			if err := json.Unmarshal([]byte(job[5:]), &c); err == nil && c.Scenario.Name != "" && c.Scenario.Call.Cmd != "" {
+				res := &engine.JobResult{Evals: 1}
+				_, obs := c.Scenario.execFn()(c.Trace)
+				if c.Expect != "" && obs != c.Expect {
+					res.Violate(prefix+":schedule-dependent-output", fmt.Sprintf("trace gives %.300s, expected %.300s", obs, c.Expect), c)
+				}
+				return res
+			}
+		}
+		return exec(tier, job)
+	}
+	p.Rule += " Schedule layer: on 4-record inputs of this property's pipeline every execution with <=2 non-default scheduling choices (2 workers), on 70-record inputs (more than any channel buffer) every execution with <=1, plus the starvation family (each goroutine in turn runs only when nothing else can), must reproduce the canonical schedule's output (which the layers above judge)."
+}
+
+// schedPair builds the 4-record (D2M1) and 70-record (D1M1) scenarios of one call shape.
+func schedPair(name string, mk func(n int) Call) []Scenario {
+	var out []Scenario
+	for _, n := range []int{4, 70} {
+		c := mk(n)
+		if c.Threads == 0 {
+			c.Threads = 2
+		}
+		c.NCPU = 2
+		mode := "D2M1"
+		if n > 20 {
+			mode = "D1M0" // map orders are varied on the 4-record input; a 70-key map would multiply the runs by 140
+		}
+		out = append(out, Scenario{Name: fmt.Sprintf("%s/n%d/t2", name, n), Family: name, Call: c, Mode: mode})
+	}
+	return out
+}
+
+// mutated returns n distinct variants of a base sequence (one substitution each, cycling positions).
+func mutated(base string, n int) []string {
+	var out []string
+	for i := 0; i < n; i++ {
+		b := []byte(base)
+		p := i % len(base)
+		alts := "ACGT"
+		b[p] = alts[(strings.IndexByte(alts, upper(base[p]))+1+i/len(base))%4]
+		out = append(out, fmt.Sprintf("s%02d", i), string(b))
+	}
+	return out
+}
